@@ -48,6 +48,7 @@ PAYLOADS = {
     "cooked-escape": "\\xzvq",
     "nul": "\x00zvq",
     "line-separator": "\u2028zvq",
+    "symbols": ";#()=zvq",
     # thorough only
     "carriage-return": "\rzvq",
     "raw-doc-end": '\\"""zvq',
@@ -56,7 +57,7 @@ PAYLOADS = {
     "triple-single": "'''zvq",
     "brace-open": "{zvq",
 }
-QUICK = list(PAYLOADS)[:14]
+QUICK = list(PAYLOADS)[:15]
 _REM = re.compile(r"(?i)([_-]?é中)?[_-]?x?zvq")
 
 
@@ -416,7 +417,8 @@ def cfgs_for(label):
     base = [("none", {})]
     if label.startswith("Info."):
         return [("setup", {}), ("poetry", {}), ("pdm", {})]
-    if any(k in label for k in ("enum", "description", "default", "const", "example", "title")):
+    f = label.split("@")[0]
+    if f in ("Schema.enum.item", "Schema.const", "Schema.description", "Schema.default", "Schema.example", "Schema.title") or label.endswith("@const") or "enum" in label.split("@")[-1]:
         base.append(("none", {"literal_enums": True, "docstrings_on_attributes": True}))
     return base
 
@@ -427,7 +429,7 @@ def build_cases(run, tier, table):
     emitted = set(table["emitted_slots"])
     quick = tier == "quick"
     classes = QUICK if quick else list(PAYLOADS)
-    few = ["triple-quote", "double-quote", "trailing-backslash", "cooked-escape"]
+    few = ["triple-quote", "double-quote", "trailing-backslash", "cooked-escape", "symbols"]
     cases = []
     # quick tier: slots with the same site signature (same rows in the table) go through the same template code; two representatives per
     # signature (chosen by the seed) get every class, the others the four classes that distinguish docstring / literal forms
@@ -446,7 +448,7 @@ def build_cases(run, tier, table):
             continue
         for (meta, cfg) in cfgs_for(label):
             full = label in reps
-            if quick and cfg and not any(k in label for k in ("enum", "const")):
+            if quick and cfg and not (label.split("@")[0] in ("Schema.enum.item", "Schema.const") or label.endswith("@const")):
                 full = False      # option variant matters mostly for enum / const rendering; other slots: the classes that differ per docstring form
             if quick and meta == "pdm":
                 full = False
